@@ -1,7 +1,7 @@
 #!/bin/bash
 # usage: seed_confirm.sh NN k   -- confirms a seeded change: demo passes on the clean (current) tree, fails with the change,
 # then runs the property's check against the change. Prints one summary line.
-NN=$1; K=$2; WT=/tmp/seed-c$NN; OUT=/tmp/seed-c$NN-out
+NN=$1; K=$2; PFX=${SEEDPFX:-seed}; WT=/tmp/$PFX-c$NN; OUT=/tmp/$PFX-c$NN-out
 export GOFLAGS=-mod=mod GOPROXY=off GOSUMDB=off GOTOOLCHAIN=local
 git -C $WT checkout -q -- . 2>/dev/null; git -C $WT clean -fdq 2>/dev/null
 git -C $WT checkout -q --detach $(git -C /repo rev-parse HEAD) || { echo "C$NN/$K: cannot move worktree"; exit 9; }
